@@ -60,7 +60,7 @@ func (*intScalar) CoerceIn(v interface{}) (interface{}, error) {
 	case nil:
 		// remains nil
 	case int:
-		v = int32(tv)
+		v, err = intOut(int64(tv), tv)
 	case int8:
 		v = int32(tv)
 	case int16:
@@ -68,17 +68,17 @@ func (*intScalar) CoerceIn(v interface{}) (interface{}, error) {
 	case int32:
 		// ok as is
 	case int64:
-		v = int32(tv)
+		v, err = intOut(tv, tv)
 	case uint:
-		v = int32(tv)
+		v, err = uintOut(uint64(tv), tv)
 	case uint8:
 		v = int32(tv)
 	case uint16:
 		v = int32(tv)
 	case uint32:
-		v = int32(tv)
+		v, err = uintOut(uint64(tv), tv)
 	case uint64:
-		v = int32(tv)
+		v, err = uintOut(tv, tv)
 	case float64:
 		// Needed for nested types since the go JSON parser always emits float64 even if an integer.
 		v = int32(tv)
